@@ -87,38 +87,43 @@ def corridorViolations (bound lo hi a0 a1 o0 o1 : Rat) (transpose : Bool) (disps
 
 /-! ### hook H1: regions of nudgeOrthogonalRoutes (harness/c10_regions.h) -/
 open AdaptaVerif.Model.NudgeRegion in
+/-- one pass over the lines of the case; lines of a region follow its `nreg` line -/
 def parseRegions (c : Case) : List DRegion := Id.run do
   let b (s : String) : Bool := s == "1"
-  let mut out : List DRegion := []
-  for l in c.get "nreg" do
-    let r := nat! l[0]!
-    let segLines := (c.get "nseg").toList.filter (fun t => nat! t[0]! == r)
-    let segs : List (RSeg × Rat × Rat) := segLines.map (fun t =>
-      let ncp := nat! t[17]!
-      let cps := (List.range ncp).map (fun k => (rat! t[18 + 2 * k]!, rat! t[19 + 2 * k]!))
-      (({ conn := nat! t[2]!, lo := rat! t[3]!, hi := rat! t[4]!, pos := rat! t[5]!, minLim := rat! t[6]!, maxLim := rat! t[7]!,
-          fixed := b t[8]!, finalSeg := b t[9]!, endsInShape := b t[10]!, single := b t[11]!, sBend := b t[12]!, zBend := b t[13]!,
-          cps := cps } : RSeg), rat! t[15]!, rat! t[16]!))
-    let vars : List Var := match (c.get "nvar").toList.find? (fun t => nat! t[0]! == r) with
-      | some t => (List.range (nat! t[1]!)).map (fun k => ⟨nat! t[2 + 3 * k]!, rat! t[3 + 3 * k]!, rat! t[4 + 3 * k]!⟩)
-      | none => []
-    let cep : List (Nat × Nat) := match (c.get "ncep").toList.find? (fun t => nat! t[0]! == r) with
-      | some t => (List.range (nat! t[1]!)).map (fun k => (nat! t[2 + 2 * k]!, nat! t[3 + 2 * k]!))
-      | none => []
-    let posLines := (c.get "npos").toList.filter (fun t => nat! t[0]! == r)
-    let atts : List DAttempt := ((c.get "natt").toList.filter (fun t => nat! t[0]! == r)).map (fun t =>
-      let a := nat! t[1]!
-      let n := nat! t[5]!
-      let cons : List FCon := (List.range n).map (fun k => ⟨nat! t[6 + 5 * k]!, nat! t[7 + 5 * k]!, rat! t[8 + 5 * k]!, b t[9 + 5 * k]!⟩)
-      let unsat := (List.range n).map (fun k => b t[10 + 5 * k]!)
-      let fps := match posLines.find? (fun u => nat! u[1]! == a) with
-        | some u => (List.range (nat! u[2]!)).map (fun k => rat! u[3 + k]!)
-        | none => []
-      { sepDist := rat! t[2]!, satisfied := b t[3]!, retry := b t[4]!, cons := cons, unsat := unsat, fps := fps })
-    out := out ++ [{ idx := r, dim := nat! l[1]!, ju := b l[2]!, skipped := b l[3]!, nudgeFinal := b l[4]!, nudgeCommonEnd := b l[5]!,
-                     nudgeColinear := b l[6]!, fsp := rat! l[7]!, base := rat! l[8]!, satisfied := b l[9]!,
-                     segs := segs.map (·.1), wrLow := segs.map (·.2.1), wrHigh := segs.map (·.2.2), vars := vars, atts := atts, cep := cep }]
-  return out
+  let mut out : Array DRegion := #[]
+  let mut cur : Option DRegion := none
+  for l in c.lines do
+    if l.size == 0 then continue
+    let key := l[0]!
+    let t := l.extract 1 l.size
+    if key == "nreg" then
+      if let some r := cur then out := out.push r
+      cur := some { idx := nat! t[0]!, dim := nat! t[1]!, ju := b t[2]!, skipped := b t[3]!, nudgeFinal := b t[4]!, nudgeCommonEnd := b t[5]!,
+                    nudgeColinear := b t[6]!, fsp := rat! t[7]!, base := rat! t[8]!, satisfied := b t[9]!,
+                    segs := [], wrLow := [], wrHigh := [], vars := [], atts := [], cep := [] }
+    else if let some r := cur then
+      if key == "nseg" then
+        let ncp := nat! t[17]!
+        let cps := (List.range ncp).map (fun k => (rat! t[18 + 2 * k]!, rat! t[19 + 2 * k]!))
+        let sg : RSeg := { conn := nat! t[2]!, lo := rat! t[3]!, hi := rat! t[4]!, pos := rat! t[5]!, minLim := rat! t[6]!, maxLim := rat! t[7]!, fixed := b t[8]!, finalSeg := b t[9]!, endsInShape := b t[10]!, single := b t[11]!, sBend := b t[12]!, zBend := b t[13]!, cps := cps }
+        cur := some { r with segs := r.segs ++ [sg], wrLow := r.wrLow ++ [rat! t[15]!], wrHigh := r.wrHigh ++ [rat! t[16]!] }
+      else if key == "nvar" then
+        cur := some { r with vars := (List.range (nat! t[1]!)).map (fun k => ⟨nat! t[2 + 3 * k]!, rat! t[3 + 3 * k]!, rat! t[4 + 3 * k]!⟩) }
+      else if key == "ncep" then
+        cur := some { r with cep := (List.range (nat! t[1]!)).map (fun k => (nat! t[2 + 2 * k]!, nat! t[3 + 2 * k]!)) }
+      else if key == "natt" then
+        let n := nat! t[5]!
+        let cons : List FCon := (List.range n).map (fun k => ⟨nat! t[6 + 5 * k]!, nat! t[7 + 5 * k]!, rat! t[8 + 5 * k]!, b t[9 + 5 * k]!⟩)
+        let unsat := (List.range n).map (fun k => b t[10 + 5 * k]!)
+        cur := some { r with atts := r.atts ++ [{ sepDist := rat! t[2]!, satisfied := b t[3]!, retry := b t[4]!, cons := cons, unsat := unsat, fps := [] }] }
+      else if key == "npos" then
+        -- positions of the attempt dumped last
+        let fps := (List.range (nat! t[2]!)).map (fun k => rat! t[3 + k]!)
+        match r.atts.getLast? with
+        | some a => cur := some { r with atts := r.atts.dropLast ++ [{ a with fps := fps }] }
+        | none => pure ()
+  if let some r := cur then out := out.push r
+  return out.toList
 
 open AdaptaVerif.Model.NudgeRegion in
 /-- consecutive regions of the same stage and dimension = one call of nudgeOrthogonalRoutes -/
